@@ -171,3 +171,25 @@ let () =
       dump (rpn_run (build (int_of_string root)));
       String.concat ";" (List.map (fun (i, s) -> string_of_int i ^ "=" ^ s) (List.sort compare !out))
     | _ -> "?args")
+
+(* page labels (Struct/PageLabels.v): same line as harness/drv_plabels.cc *)
+let () =
+  register "plabels" (fun args -> match args with
+    | [trees; calls] ->
+      let optn s = if s = "0" then None else Some (n_of_int (int_of_string s)) in
+      let lab_of e = match String.split_on_char ':' e with
+        | [k; s; p; st] -> (z_of_int (int_of_string k),
+                            { plb_S = optn s; plb_P = optn p;
+                              plb_St = (if st = "-" then PlbStNone else if st = "x" then PlbStOther else PlbStInt (z_of_int (int_of_string st))) })
+        | _ -> failwith "label" in
+      let ts = Array.of_list (List.map (fun t -> if t = "-" then None else Some (List.map lab_of (String.split_on_char ',' t)))
+                                (String.split_on_char '/' trees)) in
+      let acc = List.fold_left (fun acc c -> match List.map int_of_string (String.split_on_char '.' c) with
+          | [f; s; e; n] -> plb_labels_for_range ts.(f) (z_of_int s) (z_of_int e) (z_of_int n) acc
+          | _ -> failwith "call") [] (String.split_on_char ';' calls) in
+      let on o = match o with None -> "0" | Some x -> string_of_int (int_of_n x) in
+      (match List.rev acc with
+       | [] -> "-"
+       | l -> String.concat "," (List.map (fun (i, l) -> Printf.sprintf "%d:%s:%s:%s" (int_of_z i) (on l.plb_S) (on l.plb_P)
+                                             (match l.plb_St with PlbStInt z -> string_of_int (int_of_z z) | _ -> "-")) l))
+    | _ -> "?args")
